@@ -321,6 +321,16 @@ def run(prog, rep, tier):
                         for s in tf.blocks[bb].stmts:
                             if s.kind == 'assign' and s.rv.r == 'aggregate' and s.rv.j.get('adt') == 'ArchiveFileBlockType' and tf.edge_dominates((b.idx, si['true']), bb):
                                 mapped[s.rv.j['variant']] = val
+        # `match value { 0 => .., 1 => .., 254 => .., 255 => .., _ => Err }`: an integer switch on the parameter
+        for b in tf.blocks:
+            t = b.term
+            if t.kind == 'switch' and not b.cleanup and t.discr.place is not None and t.dty in ('u8', 'u32', 'u64', 'usize') and \
+                    (t.discr.place[0] == 1 or 1 in origins(tf, [t.discr.place[0]], through_calls=False).params):
+                for val, tgt in t.targets:
+                    for bb in tf.reachable(tgt, removed_blocks=[x for _, x in t.targets if x != tgt] + [t.otherwise]):
+                        for s in tf.blocks[bb].stmts:
+                            if s.kind == 'assign' and s.rv.r == 'aggregate' and s.rv.j.get('adt') == 'ArchiveFileBlockType' and tf.edge_dominates((b.idx, tgt), bb):
+                                mapped[s.rv.j['variant']] = val
         ok = mapped == T['block_tags']
         rep.ob('R06.3', ok, 'R06.3|%s|tag-mapping' % tf.nkey, 'tag byte mapping %s' % mapped if ok else 'tag byte -> block type mapping is %s, published %s' % (mapped, T['block_tags']), tf.loc())
     # header / footer sequences
